@@ -23,7 +23,7 @@ HEADER = ("From Shk Require Import Base.Prelude Model.LogCodec Model.LogRotate C
           "Open Scope Z_scope.\n")
 LISTS = [("codec_cases", "codec_case", "codec"), ("raw_cases", "raw_case", "raw"),
          ("probe_cases", "codec_case", "probe"), ("hist_cases", "hist_case", "hist"),
-         ("multi_cases", "multi_case", "multi")]
+         ("multi_cases", "multi_case", "multi"), ("api_cases", "api_case", "api")]
 QUERIES = [
     ("Mfmt", "bad_indices fmt_model_bad codec_cases", "codec"),
     ("Mdec", "bad_indices dec_model_bad codec_cases", "codec"),
@@ -37,6 +37,7 @@ QUERIES = [
     ("Oloss", "bad_indices hist_lossless_bad hist_cases", "hist"),
     ("Mmulti", "bad_indices multi_model_bad multi_cases", "multi"),
     ("Omulti", "bad_indices multi_oracle_bad multi_cases", "multi"),
+    ("Oapi", "bad_indices api_bad api_cases", "api"),
 ]
 KNOWN_SIG = "goroutine0-file-digits-space"
 
@@ -253,6 +254,8 @@ def run(tier, seed):
         "buffered mode: what is in the files before a flush depends on the asynchronous flush daemon and is not compared; files are looked at right after Flush(), or without a flush only while sync mode is on",
         "rotation/GC: a message is (identifier, byte length of its formatted entry); the per-file header entries are a constant size measured by calibration at the start and re-checked at the end of the run; sizes are sizes after log.Flush(); GC runs right after a flush; file names generated by create() are assumed new",
         "header widths are constant only if the goroutine id the logger prints is: the vendored petermattis/goid (2018) reads a runtime status word on go1.23 (2, or 4098 while the GC scans the stack), so the harness runs the logger histories with the Go garbage collector off and discards+redoes a history in whose files two goroutine ids appear (count: distribution.hist_discarded_goid_glitch)",
+        "the public logging calls: package fmt is outside the model (the harness computes Sprintf / Sprint itself); the message of a format without arguments is the format",
+        "entries of 64 KiB or more are outside the decoder model: files holding the 256 KiB entries are decoded line by line, each line by a decoder of its own",
         "several loggers in one directory: one mstate component per program, listing = exact match of the parsed Program field, removal by (program, time stamp); host, user and pid parts of the names are those of the process",
         "planted files have distinct time stamps older than the run (sort order of equal stamps is unspecified in selectFiles)",
         "gcOldFiles lists logging.logDir (the main logger's directory) even for a secondary logger: model and harness use secondary loggers in the main logger's directory, which is the only way shakespeare creates them",
@@ -284,7 +287,7 @@ def run(tier, seed):
     lists = split_cases(cases_v)
     nshards = max(2, min(12 if tier == "quick" else 16, vlib.NCPU))
     vals, bad_out = eval_sharded(tier, lists, nshards, 3000)
-    n_eval = summary["codec"] + summary["raw"] + summary["probe"] + summary["hist"] + summary["multi"]
+    n_eval = summary["codec"] + summary["raw"] + summary["probe"] + summary["hist"] + summary["multi"] + summary["api"]
     res.coverage.update({
         "evaluations": n_eval,
         "distinct_nontrivial": summary["distinct_nontrivial"],
@@ -304,7 +307,7 @@ def run(tier, seed):
                  "what each logger's listLogFiles returns, FetchEntriesFromFiles at the end; non-trivial = at least two loggers wrote and a GC ran."),
         "samples": summary["samples"],
         "distribution": {k: summary[k] for k in ("codec", "codec_entries", "codec_classes", "raw", "raw_kinds", "probe",
-                                                  "local_zone_offset_s", "hist", "hist_error", "hist_discarded_goid_glitch", "hist_log_ops", "hist_gc_ops", "hist_files_at_end", "hist_close_reopen_ops", "hist_reopens_under_same_name", "codec_readers", "codec_longest_stream",
+                                                  "local_zone_offset_s", "hist", "hist_error", "hist_discarded_goid_glitch", "hist_log_ops", "hist_gc_ops", "hist_files_at_end", "hist_buffer_sized_entry", "hist_own_directory_loggers", "api", "api_calls", "hist_close_reopen_ops", "hist_reopens_under_same_name", "codec_readers", "codec_longest_stream",
                                                   "multi", "multi_log_ops", "multi_gc_ops", "calibration")},
         "outside_guard_probes": {"kinds": summary["probe_kinds"], "real_roundtrip_failures": summary["probe_roundtrip_failures"]},
         "traces_validated_against_impl": summary["hist"] + summary["multi"],
@@ -359,6 +362,13 @@ def run(tier, seed):
         res.violation(sig, "history of several loggers in one directory (%s) violates the property (%s)" % (", ".join(c["Progs"]), sig),
                       {"kind": "failing-input", "input": c, "index": idx,
                        "replay": "./check C16 --tier %s --seed %d (multi-logger history %d)" % (tier, seed, idx)})
+    for idx in vals["Oapi"][:1]:
+        c = cases["api"][idx]
+        res.violation("api-message-not-stored-as-given",
+                      "%s with format %s and %d arguments is stored as severity %d message %s (expected severity %d, message %s)"
+                      % (c["Call"], c["Format"], c["NArgs"], c["ObsSev"], c["Obs"], c["Sev"], c["Format"] if c["NArgs"] == 0 else c["Fmt"]),
+                      {"kind": "failing-input", "input": c, "index": idx,
+                       "replay": "go: log.%s(ctx, %s%s) then Flush and decode the log file" % (c["Call"].split("/")[0], c["Format"], ", args..." if c["NArgs"] else "")})
     if summary.get("hist_error") and not res.violations:
         res.violation(None, "the real loggers could not be driven (rotation/GC part of the check did not run): %s" % summary["hist_error"],
                       {"kind": "harness-hist-error", "error": summary["hist_error"]}, no_input=True)
